@@ -21,6 +21,12 @@ Oracle : observed at the fake hardware.
                                         decorator swallowed the failure of its own buffer flush) | <type>-><type>
               registers whose content was destroyed by a stale write already reported under (i) are skipped and
               counted (class excluded_known:stale-buffered-write) so that one root cause yields one signature.
+         (iii) after every single write() / partial write_batch (a UOD command writing through context.hwl) that ends
+              in state OK, raised nothing and saw no physical write failure: every output register whose most
+              recent command was accepted while the hardware was unreachable (buffered) holds that value - the
+              successful write is what flushes the buffer, also after an outage that went through state Error
+              (judged for non-volatile devices only)
+                 lost-buffered-write:<states the outage went through>
 """
 from __future__ import annotations
 
@@ -90,7 +96,9 @@ def judge(case, steps):
     unnoticed_reset = False               # volatile device reset by a write failure the decorator swallowed
     phase = 0          # 0: no outage yet, 1: a commanded value was buffered, 2: recovered by a good cycle
     cycles_after = 0
+    seen_states: set = set()              # decorator states since the last buffering of a commanded value
     for st_ in steps[1:]:
+        seen_states.add(st_.post)
         if st_.kind not in ("write", "write_batch"):
             if volatile and any(e[0] == "rfail" for e in st_.ev):
                 labels.add("device-reset")
@@ -161,6 +169,7 @@ def judge(case, steps):
             was_buffered = (not reached) and (not rejected) and (failed or st_.pre == "Reconnect")
             history[r].append((v, was_buffered))
             if was_buffered:
+                seen_states = {st_.post}
                 obsolete_buffer[r] = False
                 labels.add("buffered-in:" + st_.pre)
                 if phase == 0:
@@ -169,6 +178,18 @@ def judge(case, steps):
         # ---- (ii) memory after a good full cycle ------------------------------------------------------
         if not st_.full_cycle:
             labels.add("single-or-partial-write")
+            # (not with a volatile device: an unmodified value is not buffered under only_write_modified_values, and
+            # only the next full cycle - law (ii) - restores what a device reset destroyed)
+            if st_.post == "OK" and st_.exc is None and not failed and not volatile:
+                for r in H.WRITABLE:
+                    if r in st_.regs or not history[r] or not history[r][-1][1] or r in tainted:
+                        continue
+                    labels.add("partial-write-flushes-buffer")
+                    if not _same(st_.mem[r], commanded[r]):
+                        V("lost-buffered-write:" + ("via-error" if "Error" in seen_states else "no-error-state"),
+                          "%s ended in state OK without any write error, but register %s holds %r while %r, accepted and "
+                          "buffered during the outage, is its most recent command (states since the buffering: %s)"
+                          % (st_.brief(), r, st_.mem[r], commanded[r], sorted(seen_states)))
             continue
         good = st_.post == "OK" and st_.exc is None and not failed
         if phase == 2:
@@ -215,7 +236,7 @@ def check_case(case) -> list[Violation]:
 
 FRAGS_C24 = (["cycle"] * 16 + ["cycle_same"] * 8 + ["write"] * 1 + ["write_batch"] * 1 + ["advance"] * 3 + ["tick"] * 2
              + ["fail_write"] * 5 + ["fail_read"] * 2 + ["fail_connect"] * 1 + ["outage_on"] * 2 + ["outage_off"] * 3
-             + ["to_reconnect"] * 3 + ["to_error"] * 1 + ["recover"] * 4 + ["outage_story"] * 3)
+             + ["to_reconnect"] * 3 + ["to_error"] * 1 + ["recover"] * 4 + ["outage_story"] * 3 + ["long_outage_story"] * 2)
 
 
 def _fragment(draw, kind, prev_cycle):
@@ -233,6 +254,24 @@ def _fragment(draw, kind, prev_cycle):
                 ops += [["advance", draw(st.sampled_from([18001, 3600, 0.1]))]] + H._fragment(draw, "cycle", prev_cycle)
         ops += [["fail_write", False], ["fail_read", False], ["fail_connect", False], ["tick", 6]]
         for _ in range(draw(st.integers(1, 4))):
+            ops += [["cycle", list(prev_cycle)]] if draw(st.booleans()) else H._fragment(draw, "cycle", prev_cycle)
+        return ops
+    if kind == "long_outage_story":
+        # a value is buffered, the outage outlasts both timeouts (the transition to Error is noticed by a read, by a
+        # write to another register or by a cycle), the reconnect succeeds on a tick and the first successful writes
+        # are single / partial ones (a UOD command writing through context.hwl) before the full cycles resume
+        w = draw(st.sampled_from(H.WRITABLE))
+        others = [r for r in H.WRITABLE if r != w]
+        ops = [["fail_write", True], ["fail_read", True], ["fail_connect", True], ["write", w, draw(H.value_st)]]
+        if draw(st.booleans()):
+            ops += H._fragment(draw, "cycle", prev_cycle)
+        ops += [["advance", 11], draw(st.sampled_from([["write", w, draw(H.value_st)], ["read", "A"], ["cycle", list(prev_cycle)]]))]
+        ops += [["advance", draw(st.sampled_from([18001, 18001, 3600]))],
+                draw(st.sampled_from([["read", "A"], ["write", draw(st.sampled_from(others)), draw(H.value_st)], ["cycle", list(prev_cycle)]]))]
+        ops += [["fail_write", False], ["fail_read", False], ["fail_connect", False], ["tick", draw(st.sampled_from([6, 21]))]]
+        for _ in range(draw(st.integers(1, 2))):
+            ops.append(["write", draw(st.sampled_from(others)), draw(H.value_st)])
+        for _ in range(draw(st.integers(1, 3))):
             ops += [["cycle", list(prev_cycle)]] if draw(st.booleans()) else H._fragment(draw, "cycle", prev_cycle)
         return ops
     return H._fragment(draw, kind, prev_cycle)
